@@ -44,20 +44,31 @@ theorem wf_init' (cap : Nat) (h : 1 ≤ cap) : WF (init cap) ∧ (init cap).n = 
   have hn : (init cap).n = cap := by simp [init, Img.n]
   refine ⟨wf_allzero (by rw [hn]; rfl) (by omega) rfl rfl (fun i hi => sl_init cap i (by omega)), hn⟩
 
+/-- layout facts the constructor arithmetic needs (sizes of the CURRENT structs, regenerated): nothing
+    else about the layout enters the lemmas below, so a change of the slot size alone re-proves -/
+theorem layout_ctor : 0 < sizeofSlot ∧ sizeofSlot ≤ 4294967296 ∧ sizeofHeader ≤ sizeofHandle ∧
+    sizeofHeader + sizeofSlot ≤ sizeofHandle + 1 := by decide
+
 /-- the constructor's `int maxslots` is the number of slots that fit, as long as the region is
     at least as large as the header and smaller than 2^31 slots (no `size_t` wrap, no `int` truncation) -/
 theorem ctorMaxslots_eq (memsize : Nat) (h1 : sizeofHeader ≤ memsize) (h2 : memsize < 2 ^ 31 * sizeofSlot) :
     ctorMaxslots memsize = (((memsize - sizeofHeader) / sizeofSlot : Nat) : Int) := by
+  obtain ⟨hS0, hS32, _, _⟩ := layout_ctor
   unfold ctorMaxslots
-  have hH : sizeofHeader = 12 := rfl
-  have hS : sizeofSlot = 84 := rfl
-  simp only [hH, hS] at h1 h2 ⊢
-  have e1 : (memsize + 18446744073709551616 - 12) % 18446744073709551616 = memsize - 12 := by omega
-  rw [e1]
-  have e2 : (memsize - 12) / 84 % 4294967296 = (memsize - 12) / 84 := by omega
-  rw [e2]
-  have e3 : (memsize - 12) / 84 < 2147483648 := by omega
-  rw [if_pos e3]
+  generalize sizeofHeader = H at h1 ⊢
+  generalize sizeofSlot = S at h2 hS0 hS32 ⊢
+  have hm64 : memsize < 18446744073709551616 := by
+    have : 2 ^ 31 * S ≤ 2 ^ 31 * 4294967296 := Nat.mul_le_mul_left _ hS32
+    omega
+  have e1 : (memsize + 18446744073709551616 - H) % 18446744073709551616 = memsize - H := by
+    have : memsize + 18446744073709551616 - H = (memsize - H) + 18446744073709551616 := by omega
+    rw [this, Nat.add_mod_right, Nat.mod_eq_of_lt (by omega)]
+  have e3 : (memsize - H) / S < 2147483648 := by
+    apply Nat.div_lt_of_lt_mul
+    have : S * 2147483648 = 2 ^ 31 * S := by rw [Nat.mul_comm]
+    omega
+  have e2 : (memsize - H) / S % 4294967296 = (memsize - H) / S := Nat.mod_eq_of_lt (by omega)
+  simp only [e1, e2, e3, if_true]
 
 theorem initMem_eq (memsize : Nat) (hsz : memsize < 2 ^ 31 * sizeofSlot) (img : Img) (h : initMem memsize = some img) :
     img = init ((memsize - sizeofHeader) / sizeofSlot) ∧ 1 ≤ (memsize - sizeofHeader) / sizeofSlot := by
@@ -66,8 +77,7 @@ theorem initMem_eq (memsize : Nat) (hsz : memsize < 2 ^ 31 * sizeofSlot) (img : 
   · cases h
   · rename_i hc
     have hbig : sizeofHeader ≤ memsize := by
-      have : sizeofHeader = 12 := rfl
-      have : sizeofHandle = 128 := rfl
+      have := layout_ctor.2.2.1
       omega
     have hm := ctorMaxslots_eq memsize hbig hsz
     rw [hm] at hc h
@@ -82,15 +92,13 @@ theorem initMem_small (memsize : Nat) (h : memsize ≤ sizeofHandle) : initMem m
 /-- a region of more than `sizeof(qhasharr_t)` bytes (and fewer than 2^31 slots) is accepted -/
 theorem initMem_large (memsize : Nat) (h : sizeofHandle < memsize) (hsz : memsize < 2 ^ 31 * sizeofSlot) :
     initMem memsize = some (init ((memsize - sizeofHeader) / sizeofSlot)) := by
-  have hH : sizeofHeader = 12 := rfl
-  have hS : sizeofSlot = 84 := rfl
-  have hA : sizeofHandle = 128 := rfl
+  obtain ⟨hS0, _, hHA, hmin⟩ := layout_ctor
   have hm := ctorMaxslots_eq memsize (by omega) hsz
+  have h1 : 1 ≤ (memsize - sizeofHeader) / sizeofSlot := by
+    rw [Nat.le_div_iff_mul_le hS0]; omega
   unfold initMem
   have hc : ¬ (ctorMaxslots memsize < 1 ∨ memsize ≤ sizeofHandle) := by
-    rw [hm]
-    simp only [hH, hS, hA] at h ⊢
-    omega
+    rw [hm]; omega
   rw [if_neg hc, hm]
   rfl
 
